@@ -37,8 +37,11 @@ class _Stats:
 class StubSub(B.BaseSubscription):
     """stored-query task with the documented contract: the stored events, then one (sub_id, None)"""
     n_stored = 0
+    slow = 0       # loop passes the query needs before it delivers (a real query awaits the database)
 
     async def run_query(self):
+        for _ in range(StubSub.slow):
+            await self.storage.loop.sleep(0)
         n = 0
         for ev in STORED + STORED_K2:
             if n >= StubSub.n_stored:
